@@ -706,6 +706,11 @@ impl Actor {
             }
         };
 
+        // No further actions are accepted. Drop those that were queued behind the shutdown, so
+        // that their callers get an error instead of waiting forever for a reply.
+        self.action_rx.close();
+        while self.action_rx.try_recv().is_ok() {}
+
         if let Err(cause) = self.store.flush() {
             warn!(?cause, "failed to flush store");
         }
